@@ -74,8 +74,11 @@ fn inspection_line(rng: &mut Rng, snap: &Snapshot, stats: &mut Stats) -> String 
     let numeric_vars: Vec<&String> = snap.variables.iter().filter(|v| v.1 == 'N').map(|v| &v.0).collect();
     let string_vars: Vec<&String> = snap.variables.iter().filter(|v| v.1 == 'S').map(|v| &v.0).collect();
     let has_fnz = snap.functions.iter().any(|f| f.0 == "FNZ");
-    match rng.below(14) {
+    // (a name that is not a function yet would be read as an array, which creates it)
+    let has_fny = has_fnz && snap.functions.iter().any(|f| f.0 == "FNY");
+    match rng.below(15) {
         0 => "PRINT 1/0".into(),
+        13 if has_fny => { stats.fn_fail_inspections += 1; "PRINT FNY(0)".into() }
         1 => "PRINT \"A\"+1".into(),
         2 => "LIST".into(),
         3 => rng.s(&["PRINT )", "X +", "PRINT \"unterminated", "GOSUB", "IF 1", "é", "NEXT"]).to_string(),
@@ -94,7 +97,7 @@ fn inspection_line(rng: &mut Rng, snap: &Snapshot, stats: &mut Stats) -> String 
             // the body divides by its argument: fails inside the function
             "PRINT FNZ(0)".into()
         }
-        11 if has_fnz => "PRINT FNZ(\"text\")".into(),
+        11 if has_fny => rng.s(&["PRINT FNZ(\"text\")", "PRINT FNY(0)", "PRINT FNY(0)", "PRINT FNY(FNZ(0))", "PRINT FNY(2) + FNY(0)", "PRINT FNY(5)"]).to_string(),
         12 => "PRINT RND(0)".into(),
         _ => "PRINT 42".into(),
     }
@@ -312,7 +315,11 @@ fn add_fnz(g: &mut Generated) {
     }
     g.prog.lines.insert(0, Line {
         number: 0,
-        stmts: vec![Stmt::Def { name: "FNZ".into(), params: vec!["X".into()], body: bin(Bin::Div, num(10), var("X")) }],
+        stmts: vec![
+            Stmt::Def { name: "FNZ".into(), params: vec!["X".into()], body: bin(Bin::Div, num(10), var("X")) },
+            // a function that fails one level further down (inside the function it calls)
+            Stmt::Def { name: "FNY".into(), params: vec!["V".into()], body: bin(Bin::Add, Expr::Call("FNZ".into(), vec![var("V")]), num(1)) },
+        ],
     });
 }
 
